@@ -292,7 +292,8 @@ class StreamsTree:
                 "tree_directory": f".scratch/streams/trees/{self.key}",
                 "translated_methods": [{"method": f"{m['class']}.{m['method']}", "lines": m["lines"], "definition": m["definition"],
                                         "result_kind": m.get("result_kind"),
-                                        **({"parameter_defaults": m["defaults"]} if m.get("defaults") else {})} for m in ms],
+                                        **({"parameter_defaults": m["defaults"]} if m.get("defaults") else {}),
+                                        **({"inlined_helpers": m["inlined_helpers"]} if m.get("inlined_helpers") else {})} for m in ms],
                 "translated_text_sha1": h.hexdigest() if ms else None,
                 "translated_text_sha1_all_classes": self.info.get("translated_text_sha1"),
                 "translation_failures": [f for f in self.info.get("failures", []) if f.get("class") in classes or f.get("class") is None],
